@@ -8,7 +8,10 @@ CFG = dict(
          "UNPAUSE, 'UNPAUSE label', malformed UNPAUSE, invalid words, mixed case and suffixed words (PAUSED, STOP now, ...); 0..70% of the requests are "
          "illegal or redundant in the current state (PAUSE before START, START while active, label while inactive, START without base path, OFF "
          "without projectors); 12% of the cases begin with a pause that precedes an OFF-only START (the repaired defect); projectors are also loaded "
-         "mid-history. Between requests 0..3 publications: blocks through the real ProcessSegments (auto-triggered channels) or 0..20 records "
+         "mid-history; in 35% of the cases the source has chosen channel numbers (from 0 as AnySource numbers them, a gap such as {1,2,9,3} with the "
+         "offending channel NOT first, a permutation of 1..n, odd numbers, or 1..n) and pixel maps are loaded/unloaded before 10..60% of the requests "
+         "(right length, off by one, empty), so that STARTs arrive with a good map, a map of the wrong length, or a map lacking a pixel for the "
+         "first / a later channel (cases 2 and 3 of every run are scripted map histories). Between requests 0..3 publications: blocks through the real ProcessSegments (auto-triggered channels) or 0..20 records "
          "handed to one channel's real AnalyzeData+PublishData. After EVERY step: real ComputeWritingState (active, paused, 3 type flags, base "
          "path, file pattern parsed to (base, run number)), per-channel numberWritten, record count of every .ljh/.ljh3/.off file in every run "
          "directory (files parsed from disk after a flush), file descriptors held below the output directory. The Lean oracle judges the "
@@ -23,7 +26,8 @@ CFG = dict(
                   "record is not distinguished from no file (lazy creation is not part of the statement)",
                   "os/bufio/asyncbufio: a flush makes everything written so far visible on disk (queue overflow is C07's subject; cases publish at most ~100 records between flushes)"],
     assumptions=["I/O failures inside START/STOP (mkdir, create) are outside the property's quantifier",
-                 "no pixel map is loaded (MapInternalOnly nil); record lengths are not changed while writing",
+                 "one channel per pixel (channelsPerPixel = 1, the AnySource default); pixel coordinates in file headers are C05's subject; record lengths are not changed while writing",
+                 "the map a request is judged against is the one the server holds when it arrives (a map error also unloads the map: observed, not modelled)",
                  "a channel is OFF-eligible iff it had projectors when the START was accepted (projectors loaded later do not open a file)"],
     timeout=dict(quick=900, thorough=3600),
 )
@@ -40,7 +44,7 @@ MANIFEST = dict(
          "WritingState.Start/Stop are transcribed; the model is compared with the real code after every step of generated histories on every run.",
     note="Trusted: Lean 4.33 kernel (axioms propext, Classical.choice, Quot.sound only; audited every run); the hand-written model is tied "
          "to the Go code only by differential testing with seeded generators (not a proof). Files are record counts (content: C05), ASCII requests, "
-         "no I/O failures, no pixel map. The defect found (SetOFF left the channel pause flag set: PAUSE ... START{OFF only} reported "
+         "no I/O failures. The defect found (SetOFF left the channel pause flag set: PAUSE ... START{OFF only} reported "
          "active/unpaused but stored nothing) was repaired (fix: 29d6aef) and the theorems are about the repaired behaviour.",
     technique="Lean 4 theorems over an executable model; model tied to the Go code by a differential correspondence run",
 )
@@ -52,4 +56,5 @@ THEOREMS = [
     ("DastardV.Props.C06", "DastardV.C06.C06_rejected_is_noop"),
     ("DastardV.Props.C06", "DastardV.C06.C06_start_fresh_dir"),
     ("DastardV.Props.C06", "DastardV.C06.C06_stop_closes_all"),
+    ("DastardV.Props.C06", "DastardV.C06.C06_bad_map_refused"),
 ]
